@@ -1,12 +1,88 @@
 import Tpp.Driver.Proto
-/-! Driver slice `Strings`: model answers (`run`) and property oracle on the implementation's answers (`oracle`). -/
+import Tpp.Model.Strings
+import Tpp.Ref.Render
+/-!
+Driver slice `Strings` (C17).
+  `Z <hex>`                      string(ptr, len)          → `<to_string hex> <size>`
+  `z n <n elems> m <m elems>`    a, b                      → `<to_string a> <to_string b> <to_string (a+b)> <to_string (a+=b)>`
+  `w <bits> n <n elems>`         fresh terminal << string  → `<wire hex> / <to_string hex>`
+-/
 namespace Tpp.Driver.Strings
 open Tpp Tpp.Driver
 
-/-- model answer for a case line of this slice; `none` when the kind is not ours -/
-def run (_kind : Char) (_rest : String) : Option String := none
+def rdTwo : Rd (List Element × List Element) := do
+  let n ← Rd.num; let a ← rdElements n; let m ← Rd.num; let b ← rdElements m; return (a, b)
 
-/-- oracle verdict (`ok` / `FAIL <ids> …`) given the case, the configuration prefix and the real answer -/
-def oracle (_kind : Char) (_cfg _rest _real : String) : Option String := none
+def run (kind : Char) (rest : String) : Option String :=
+  match kind with
+  | 'Z' =>
+    let bs := unhex ((words rest).headD "-")
+    let s := TString.ofBytes bs
+    some s!"{hex (TString.toString s)} {s.length}"
+  | 'z' =>
+    let ((a, b), _) := rdTwo.run (words rest)
+    some s!"{hex (TString.toString a)} {hex (TString.toString b)} {hex (TString.toString (a ++ b))} {hex (TString.toString (a ++ b))}"
+  | 'w' =>
+    let ((bits, es), _) := (do let bits ← Rd.num; let n ← Rd.num; let es ← rdElements n; return (bits, es) : Rd _).run (words rest)
+    let out := (step (rdBehaviour bits) {} (.writeString es)).2
+    some s!"{hex out} / {hex (TString.toString es)}"
+  | _ => none
+
+/-- one complete control function at the head of the wire (ECMA-48 §5.4 CSI syntax; SCS; `ESC % F`) -/
+def ctlStrip : List Byte → Option (List Byte)
+  | 0x1B :: 0x5B :: rest =>
+    let r1 := rest.dropWhile (fun b => 0x30 ≤ b && b ≤ 0x3F)
+    let r2 := r1.dropWhile (fun b => 0x20 ≤ b && b ≤ 0x2F)
+    match r2 with
+    | f :: r3 => if 0x40 ≤ f && f ≤ 0x7E then some r3 else none
+    | [] => none
+  | 0x1B :: 0x28 :: 0x25 :: _ :: rest => some rest
+  | 0x1B :: 0x28 :: _ :: rest => some rest
+  | 0x1B :: 0x25 :: _ :: rest => some rest
+  | _ => none
+
+def startsWith (w t : List Byte) : Bool := w.take t.length = t
+
+/-- can the wire be read as control functions interleaved with exactly these glyph texts, in order? -/
+def decomp : Nat → List Byte → List (List Byte) → Bool
+  | 0, _, _ => false
+  | fuel + 1, w, [] =>
+    w.isEmpty || (match ctlStrip w with | some r => decomp fuel r [] | none => false)
+  | fuel + 1, w, t :: ts =>
+    (startsWith w t && decomp fuel (w.drop t.length) ts) ||
+    (match ctlStrip w with | some r => decomp fuel r (t :: ts) | none => false)
+
+def glyphValid (g : Glyph) : Bool :=
+  if g.cs = .utf8 then
+    (g.b0 < 0x80 && g.b1 = 0 && g.b2 = 0) ||
+    ((0xC2 ≤ g.b0 && g.b0 ≤ 0xDF) && isCont g.b1 && g.b2 = 0) ||
+    ((0xE0 ≤ g.b0 && g.b0 ≤ 0xEF) && isCont g.b1 && isCont g.b2)
+  else true
+
+def oracle (kind : Char) (_cfg rest real : String) : Option String :=
+  let rw := words real
+  match kind with
+  | 'Z' =>
+    let inp := (words rest).headD "-"
+    some (if rw.headD "" = inp then "ok" else s!"FAIL C17 to_string(string(bytes)) = {rw.headD ""} for bytes {inp}")
+  | 'z' =>
+    match rw with
+    | [a, b, ab, ab2] =>
+      let cat := hex (unhex a ++ unhex b)
+      some (if ab = cat && ab2 = cat then "ok" else s!"FAIL C17 to_string does not distribute over concatenation: {a} {b} {ab} {ab2}")
+    | _ => some "FAIL C17 unreadable answer"
+  | 'w' =>
+    let ((_, es), _) := (do let bits ← Rd.num; let n ← Rd.num; let es ← rdElements n; return (bits, es) : Rd _).run (words rest)
+    if !(es.all fun e => glyphValid e.glyph) then some "ok" else
+    match real.splitOn " / " with
+    | [wire, ts] =>
+      let w := unhex wire.trimAscii.toString
+      let texts := es.map fun e => e.glyph.text
+      let expect := hex (texts.flatMap id)
+      if ts.trimAscii.toString ≠ expect then some s!"FAIL C17 to_string = {ts}, the glyph text is {expect}"
+      else if decomp (w.length + es.length + 2) w texts then some "ok"
+      else some s!"FAIL C17 wire {wire} is not control functions interleaved with the glyph bytes {expect}"
+    | _ => some "FAIL C17 unreadable answer"
+  | _ => none
 
 end Tpp.Driver.Strings
